@@ -33,7 +33,13 @@ pub enum TxEdit {
     /// spends an output that was created only on a branch that is not the current chain, signed
     /// by its owner (C01 only; not part of TX_EDITS so that recorded edit indices stay stable)
     OffChainInput,
+    /// BlockStake-typed transaction without any input and a Normal output (C01 only)
+    StakeTypeNoInput,
+    /// BlockStake-typed transaction that spends the victim's output to the attacker, signed by the attacker (C01 only)
+    StakeTypeForeignInput,
 }
+/// edits that are judged by C01 only (kept out of TX_EDITS so that recorded edit indices stay stable)
+pub const TX_EDITS_EXTRA: [TxEdit; 3] = [TxEdit::OffChainInput, TxEdit::StakeTypeNoInput, TxEdit::StakeTypeForeignInput];
 pub const TX_EDITS: [TxEdit; 19] = [
     TxEdit::ForgedSig,
     TxEdit::NoSig,
@@ -154,6 +160,26 @@ pub fn edited_tx(e: TxEdit, c: &EditCtx) -> Option<Transaction> {
             let owner = (0u8..8).map(key).find(|k| k.0 == s.public_key)?;
             let amt = s.amount;
             Some(tx_from_inputs(vec![s], vec![out(owner.0, amt)], &owner, c.ts, vec![]))
+        }
+        TxEdit::StakeTypeNoInput => {
+            let mut t = Transaction::default();
+            t.timestamp = c.ts;
+            t.transaction_type = TransactionType::BlockStake;
+            let mut o = Slip::default();
+            o.public_key = att.0;
+            o.amount = 654_321;
+            t.add_to_slip(o);
+            t.sign(&att.1);
+            t.generate(&att.0, 0, 0);
+            Some(t)
+        }
+        TxEdit::StakeTypeForeignInput => {
+            let v = v0?;
+            let mut t = tx_from_inputs(vec![v.clone()], vec![out(att.0, v.amount)], &att, c.ts, vec![]);
+            t.transaction_type = TransactionType::BlockStake;
+            t.sign(&att.1);
+            t.generate(&att.0, 0, 0);
+            Some(t)
         }
         TxEdit::DupInputInTx => {
             let a = a0?;
